@@ -90,6 +90,15 @@ func funcDeclName(fd *ast.FuncDecl) string {
 // classifyDefault: does the default clause panic or return a non-nil error?
 func classifyDefault(pkg *packages.Package, cc *ast.CaseClause) string {
 	kind := "other"
+	// a default that fails unconditionally says "no other value can get here"; one that tests
+	// something first (if …) is an ordinary "everything else" branch and makes no such claim
+	for _, st := range cc.Body {
+		switch st.(type) {
+		case *ast.ExprStmt, *ast.ReturnStmt, *ast.AssignStmt, *ast.DeclStmt:
+		default:
+			return "other"
+		}
+	}
 	for _, st := range cc.Body {
 		ast.Inspect(st, func(n ast.Node) bool {
 			switch n := n.(type) {
